@@ -656,6 +656,121 @@ MANIFEST["C39"] = dict(
 
 
 # --------------------------------------------------------------------------------------------
+# C38  observation socket: framing rule and value fidelity
+# --------------------------------------------------------------------------------------------
+SIG_ULP = "Framing:raw-float-read-back-one-ulp-off"
+FRAMING_TEST = "daemon::sockets::verif_hook::verif_framing"
+OBSERVER_TEST = "daemon::observer::verif_hook::verif_observer"
+
+
+def frame_sig(c):
+    return "frame[len=%s,prefix=%s,avail=%s,json=%s,chunk=%s]" % (c["len"], c["prefix"], c["avail"], c["json"], c["chunk"])
+
+
+def shape_sig(c):
+    return "shape[nsrc=%s,nts=%s,dur=%s,nsrv=%s,ctr=%s,flt=%s,ts=%s,thr=%s]" % tuple(c[k] for k in ("nsrc", "nts", "dur", "nsrv", "ctr", "flt", "ts", "thr"))
+
+
+def run_c38(out, tier, seed):
+    rule = ("framing: every stream class (announced length in {0, 1, 2^20-1, 2^20, 2^20+1, 2^32, 2^64-1} x prefix complete/cut x payload "
+            "exact/short/extra/absent x valid/invalid JSON x read granularity) through the real read_json on a byte-counting in-memory "
+            "stream, result and bytes consumed compared with the state machine of Framing.tla; value fidelity: every enumerated shape of "
+            "ObservableState through write_json + read_json, field-wise comparison (integers, strings, enums, raw floats, timestamps "
+            "equal; durations within 1e-9 relative + 2^-32 s); a shape is non-trivial if it has a source, a server or a non-zero "
+            "duration / float class, distinct = distinct shape records")
+    out.coverage["rule"] = rule
+    out.assumptions += ["finite numbers only (non-finite floats cannot be represented in JSON and are outside the statement)",
+                        "the unix socket itself is replaced by an in-memory stream; ntp-ctl and the metrics exporter use the same read_json::<ObservableState>",
+                        "one representative value per class, varied per list index"]
+    g, mc, inits = vf.collect_graph("MC_Framing", "Gen_Framing%s.cfg" % ("" if tier == "quick" else "_T"), workers=8, timeout=1500)
+    if mc.violated:
+        raise vf.ToolError("framing model violates %s at design level:\n%s" % (mc.violated, mc.error_trace[:3000]))
+    out.add("states", mc.distinct)
+    out.add("transitions", mc.generated)
+    recs = [e[2] for e in g.edges]
+    frames = [i for i, r in enumerate(recs) if r["act"]["kind"] == "frame"]
+    shapes = [i for i, r in enumerate(recs) if r["act"]["kind"] == "shape"]
+    need = {"too-large", "eof", "bad-json", "value"}
+    if need - set(recs[i]["out"]["result"] for i in frames) or len(shapes) < 100:
+        raise vf.ToolError("vacuous class enumeration")
+    rng = random.Random(seed)
+    wd = vf.workdir("Framing")
+    res = {}
+    for name, idx, test in (("frames", frames, FRAMING_TEST), ("shapes", shapes, OBSERVER_TEST)):
+        order = list(idx)
+        rng.shuffle(order)
+        rows = [{"id": i, "act": recs[i]["act"], "out": recs[i]["out"]} for i in order]
+        wf, rf = os.path.join(wd, "%s.ndjson" % name), os.path.join(wd, "results_%s.ndjson" % name)
+        vf.write_ndjson(wf, rows)
+        vf.run_harness("ntpd", test, {"mode": "replay", "input": wf, "output": rf, "seed": seed})
+        got = vf.read_ndjson(rf)
+        for r in got:
+            if r["id"] == -1:
+                if r["write_frame"] != "ok":
+                    out.violation("Framing:write_json-frame", {"how": "replay", "observed": r["write_frame"]})
+            else:
+                res[r["id"]] = r
+    if len(res) != len(recs):
+        raise vf.ToolError("harness returned %d results for %d classes" % (len(res), len(recs)))
+    confirmed = 0
+    nontrivial = set()
+    total_bytes = 0
+    for i, rec in enumerate(recs):
+        r = res[i]
+        a = rec["act"]
+        fields = set(r["fields"])
+        if a["kind"] == "shape":
+            total_bytes += (r["observed"] or {}).get("bytes", 0)
+            if rec["out"]["nontrivial"] and not fields:
+                nontrivial.add(key(a["c"]))
+        if not fields:
+            confirmed += 1
+            continue
+        cone = set(rec["cones"]["C38"])
+        detail = {"how": "replay", "class": a, "expected": rec["out"], "observed": r["observed"], "panic": r.get("panic"), "differing": sorted(fields)}
+        diffs = (r["observed"] or {}).get("differences") or []
+        if a["kind"] == "shape" and fields == {"out.equal"} and diffs and all(d.startswith("float-ulps=1 ") for d in diffs):
+            # the only differences are raw floats that came back as the neighbouring double
+            out.add("shapes_with_a_raw_float_one_ulp_off", 1)
+            out.violation(SIG_ULP, detail)
+            out.sample({"finding": "raw float not equal after the round trip", "class": shape_sig(a["c"]), "differences": diffs[:2]}, cap=4)
+        elif fields & cone:
+            sig = frame_sig(a["c"]) if a["kind"] == "frame" else shape_sig(a["c"])
+            out.violation("Framing:%s:%s" % (sig, ",".join(sorted(fields & cone))), detail)
+        else:
+            out.divergences.append(detail)
+    out.add("framing_classes", len(frames))
+    out.add("model_transitions_constrained_by_property", len(recs))
+    out.add("model_transitions_confirmed_on_impl", confirmed)
+    out.add("replayed_steps", len(recs))
+    out.add("traces_validated_against_impl", 0)
+    out.add("evaluations", len(shapes))
+    out.add("distinct_nontrivial", len(nontrivial))
+    out.add("round_tripped_bytes", total_bytes)
+    out.coverage["exhaustive"] = tier != "quick"
+    out.sample({"class": frame_sig(recs[frames[0]]["act"]["c"]), "expected": recs[frames[0]]["out"], "observed": res[frames[0]]["observed"]})
+    big = [i for i in frames if recs[i]["act"]["c"]["len"] == "2^64-1" and recs[i]["act"]["c"]["avail"] == "some"]
+    if big:
+        out.sample({"class": frame_sig(recs[big[0]]["act"]["c"]), "expected": recs[big[0]]["out"], "observed": res[big[0]]["observed"]})
+    out.sample({"class": shape_sig(recs[shapes[-1]]["act"]["c"]), "observed": res[shapes[-1]]["observed"]})
+
+
+PROPS.append("C38")
+_RUN["C38"] = ("model_checking", run_c38)
+MANIFEST["C38"] = dict(
+    level="model_checking", engine="tlc+replay", design_ref="6.11, 7 (daemon task group), 8",
+    technique="TLA+ state machine of the length-prefixed JSON framing (spec/Framing.tla: ReadLen / Reject / ReadPayload / Parse) checked by "
+              "TLC; every stream class run through the real read_json on a byte-counting in-memory stream; value fidelity explored over "
+              "TLC-enumerated shapes of ObservableState through the real write_json / read_json pair",
+    text="A message announcing more than 2^20 bytes is rejected after exactly the 8 prefix bytes with no payload byte consumed, shorter "
+         "streams fail without over-reading, a well-framed message consumes exactly 8 + length bytes (109 stream classes); observable "
+         "states of 0-3 sources (with/without NTS cookie counts, NtpDuration::MAX placeholders), 0-2 servers, float / counter / "
+         "timestamp classes are read back equal, durations within 1e-9 relative + 2^-32 s.",
+    note="model_checking applies to the framing rule; the value-fidelity clause is exploration over shapes (numeric, DESIGN section 8); the "
+         "unix socket is replaced by an in-memory stream; quick tier samples the shape space, thorough enumerates it")
+
+
+# --------------------------------------------------------------------------------------------
 def run(prop, tier, seed):
     level, fn = _RUN[prop]
     out = vf.Outcome(prop, tier, seed, level)
